@@ -1688,6 +1688,8 @@ impl Node {
         channel_id: ChannelId,
         arc_self: &Arc<Node>,
     ) -> Result<(ChannelId, Option<ChannelSlot>), Status> {
+        // read the chain height first: the tracker lock comes before the channels lock
+        let blockheight = arc_self.get_tracker().height();
         let mut channels = self.get_channels();
         let policy = self.policy();
         if channels.len() >= policy.max_channels() {
@@ -1710,7 +1712,6 @@ impl Node {
         let keys =
             self.keys_manager.get_channel_keys_with_id(channel_id.clone(), channel_value_sat);
 
-        let blockheight = arc_self.get_tracker().height();
         let stub = ChannelStub {
             node: Arc::downgrade(arc_self),
             secp_ctx: Secp256k1::new(),
